@@ -67,7 +67,7 @@ fn check_map(kv: &Kv, bytes: &[u8], rng: &mut Rng, ev: &mut Ev, tag: &str) {
     qs.dedup();
     let descr = |q: u64| J::obj(vec![("front", J::s(tag)), ("query_value", J::U(q)), ("nkeys", J::U(kv.len() as u64)), ("entries", J::A(kv.iter().take(16).map(|(k, v)| J::A(vec![J::bytes(k), J::U(*v)])).collect()))]);
     let mut bad = 0;
-    for q in qs {
+    for (qi, q) in qs.into_iter().enumerate() {
         if bad > 2 {
             break;
         }
@@ -75,9 +75,12 @@ fn check_map(kv: &Kv, bytes: &[u8], rng: &mut Rng, ev: &mut Ev, tag: &str) {
         ev.distinct_extra += 1;
         let want: Option<&Vec<u8>> = inv.get(&q).cloned();
         ev.count(if want.is_some() { "queries:present-value" } else { "queries:absent-value" });
+        // the caller's buffer: short prefix, or (every 4th query) one that is already longer than the whole FST,
+        // as happens when one buffer is reused to collect many keys
+        let prefix: Vec<u8> = if qi % 4 == 3 { vec![b'#'; bytes.len() + 9 + qi % 5] } else { b"PFX".to_vec() };
         let r = guard(|| {
             let got = fst.get_key(q);
-            let mut buf = b"PFX".to_vec();
+            let mut buf = prefix.clone();
             let ok = fst.get_key_into(q, &mut buf);
             (got, ok, buf)
         });
@@ -94,11 +97,11 @@ fn check_map(kv: &Kv, bytes: &[u8], rng: &mut Rng, ev: &mut Ev, tag: &str) {
                 }
                 match want {
                     Some(k) => {
-                        let mut exp = b"PFX".to_vec();
+                        let mut exp = prefix.clone();
                         exp.extend_from_slice(k);
                         if !ok || buf != exp {
                             bad += 1;
-                            ev.violate("get-key-into", format!("get_key_into({}) returned {} with buffer {} (want true and the caller's prefix followed by exactly the key)", q, ok, crate::json::show_bytes(&buf)), descr(q));
+                            ev.violate("get-key-into", format!("get_key_into({}) into a buffer already holding {} bytes returned {} with a buffer of {} bytes ending in {} (want true and the caller's prefix followed by exactly the key)", q, prefix.len(), ok, buf.len(), crate::json::show_bytes(&buf[buf.len().saturating_sub(16)..])), descr(q));
                         }
                     }
                     None => {
